@@ -291,12 +291,16 @@ def run_history(spy, fam, params, history, twin_memo, rtol=1e-9):
 
 
 def first_divergence(fam, steps, upto, rtol=1e-9):
-    """Index of the first step (<= upto) after which real and twin differ in return value or in the passive
-    fingerprint of their logical state: the step that introduced the discrepancy (used for attribution only)."""
+    """Index of the first step (<= upto) after which real and twin differ in return value or in those components
+    of the passive fingerprint of their logical state that the failing operation ``steps[upto].op`` depends on:
+    the step that introduced the discrepancy (used for attribution only; several defects can overlap in a history)."""
+    comps = fam.relevant(steps[upto].op)
     for k in range(upto + 1):
         s = steps[k]
         if not compare(s.real, s.twin, rtol)[0]:
             return k
-        if not fam.fp_equal(s.fp_real, s.fp_twin):
+        a = tuple(s.fp_real[i] for i in comps)
+        b = tuple(s.fp_twin[i] for i in comps)
+        if not fam.fp_equal(a, b):
             return k
     return upto
